@@ -196,24 +196,33 @@ Proof.
 Qed.
 
 (* --- what one call reports ---------------------------------------------------------------------------------------------- *)
-(* data for every unit but ErrorGrammar; Values() for the units that fill them (parse.go: "Values returns a slice of
-   Tokens for the last Grammar. Only AtRuleGrammar, BeginAtRuleGrammar, BeginRulesetGrammar and Declaration will
-   return the at-rule components, ruleset selector and declaration values"), and for CustomPropertyGrammar.  An
-   ErrorGrammar unit repeats in data a token of its Values(), and at the end of the input its Values() are those of
-   an earlier unit: it is left out here (its tokens are covered by reported_ok). *)
+(* data and Values() of every unit (Next clears the buffer first, fix ef9c484, so Values() are the unit's own).  The exact
+   exception: for an ErrorGrammar unit only Values() are taken - when a declaration is in error, parseDeclarationError
+   sets p.tt, p.data to the offending token and also appends that token to the buffer, so data repeats a token of
+   Values(); for the other ErrorGrammar units data is ErrorToken/nil, the empty token of a ruleset, or the name of the
+   at-rule / custom property that is in error. *)
 Definition reported (r : gtype * parser) : list tok :=
   match fst r with
-  | GError => []
-  | GAtRule | GBeginAtRule | GBeginRuleset | GDeclaration | GCustomProperty => (ptt (snd r), pdata (snd r)) :: pbuf (snd r)
-  | _ => [(ptt (snd r), pdata (snd r))]
+  | GError => pbuf (snd r)
+  | _ => (ptt (snd r), pdata (snd r)) :: pbuf (snd r)
   end.
 
 (* the result of a parser function that was entered when the lexer stood at s *)
 Definition unit_ok (D : list Z) (s : Z) (g : gtype) (p' : parser) : Prop :=
   lex_reach D (pl p') /\ chain D s (reported (g, p')) (lpos (pl p')).
 
-Lemma unit_err D s p' : lex_reach D (pl p') -> s <= lpos (pl p') -> unit_ok D s GError p'.
-Proof. intros H1 H2. split; [exact H1|constructor; exact H2]. Qed.
+Lemma unit_err D s p' : lex_reach D (pl p') -> chain D s (pbuf p') (lpos (pl p')) -> unit_ok D s GError p'.
+Proof. intros H1 H2. split; [exact H1|exact H2]. Qed.
+
+Lemma chain_prefix D lo a b hi : chain D lo (a ++ b) hi -> chain D lo a hi.
+Proof. intros H. destruct (chain_split D a lo b hi H) as (m & H1 & H2). eapply chain_hi; [exact H1|eapply chain_le; exact H2]. Qed.
+
+Lemma chain_insert_ws D lo a b hi (w : bool) : chain D lo (a ++ b) hi ->
+  chain D lo ((a ++ (if w then [(TWhitespace, [32])] else [])) ++ b) hi.
+Proof.
+  intros H. destruct w; [|rewrite app_nil_r; exact H]. destruct (chain_split D a lo b hi H) as (m & H1 & H2).
+  rewrite <- app_assoc. eapply chain_app; [exact H1|]. cbn [app]. apply CH_synth; [left; split; [reflexivity|left; reflexivity]|exact H2].
+Qed.
 
 Ltac flds := unfold adjust_level, push_buf, push_st, pop_st_if_gt1;
   repeat match goal with |- context [if ?b then _ else _] => destruct b end;
@@ -231,11 +240,13 @@ Proof.
   assert (Hc1 : chain D s ((ptt p1, pdata p1) :: pbuf p1) (lpos (pl p1))) by (rewrite Htt, Hdd, Hbb; eapply chain_hi; eassumption).
   pif H; [ret_inv H; split; [exact Hr1|exact Hc1]|].
   pif H; [ret_inv H; split; [exact Hr1|exact Hc1]|].
+  assert (Hc' : chain D s ((ptt p, pdata p) :: pbuf p) (lpos (pl p))) by exact Hc.
   pif H.
-  { ret_inv H. apply unit_err; [flds; exact Hr1|]. pose proof (chain_le _ _ _ _ Hc). flds; lia. }
+  { ret_inv H. apply unit_err; [flds; exact Hr1|].
+    pose proof (chain_snoc D s _ _ _ _ _ Hc' Ht) as Hx. cbn [app] in Hx. apply chain_tail in Hx.
+    flds; rewrite ?Hbb; exact Hx. }
   eapply IH; [exact H|flds; exact Hr1|].
   match goal with |- chain _ _ _ (lpos (pl ?q)) => assert (Hq : pl q = pl p1) by (flds; reflexivity); rewrite Hq end.
-  assert (Hc' : chain D s ((ptt p, pdata p) :: pbuf p) (lpos (pl p))) by exact Hc.
   flds; rewrite ?Htt, ?Hdd, ?Hbb;
     first [ exact (chain_snoc_ws D s (_ :: _) _ true _ _ _ Hc' Ht)
           | pose proof (chain_snoc_ws D s (_ :: _) _ false _ _ _ Hc' Ht) as Hx; rewrite app_nil_r in Hx; exact Hx ].
@@ -268,9 +279,9 @@ Proof.
   assert (Hm : chain D s (pbuf p1) (lpos (pl p1))).
   { eapply chain_hi; [exact Hb1|]. eapply chain_le; exact Ht. }
   pif H; [ret_inv H; split; [exact Hr1|]; unfold reported; cbn [fst snd]; flds; apply CH_synth; assumption|].
-  pif H; [ret_inv H; apply unit_err; [exact Hr1|eapply chain_le; exact Hm]|].
+  pif H; [ret_inv H; apply unit_err; [exact Hr1|cbn [set_err pbuf pl]; exact Hm]|].
   pif H.
-  { ret_inv H. apply unit_err; [flds; exact Hr1|]. pose proof (chain_le _ _ _ _ Hm). flds; lia. }
+  { ret_inv H. apply unit_err; [flds; exact Hr1|]. flds; (eapply chain_app; [exact Hb1|exact Ht]). }
   eapply IH; [exact H|flds; exact Hr1|]. cbv beta iota.
   match goal with |- _ /\ chain _ _ _ (lpos (pl ?q)) => assert (Hq : pl q = pl p1) by (flds; reflexivity); rewrite Hq end.
   split; [flds; exact Hs1|].
@@ -280,20 +291,24 @@ Proof.
 Qed.
 
 Lemma decl_error_loop_o D s : forall fuel F p t d g p', decl_error_loop fuel F p t d = POk (g, p') ->
-  lex_reach D (pl p) -> s <= lpos (pl p) -> unit_ok D s g p'.
+  lex_reach D (pl p) -> chain D s (pbuf p ++ [(t, d)]) (lpos (pl p)) -> unit_ok D s g p'.
 Proof.
-  induction fuel as [|fuel IH]; intros F p t d g p' H Hr Hs; rewrite decl_error_loop_eq in H.
-  - pif H; [|discriminate]. cbv zeta in H. ret_inv H. apply unit_err; flds; assumption.
-  - pif H; [cbv zeta in H; ret_inv H; apply unit_err; flds; assumption|]. cbv zeta in H.
-    pinv_bind H. destruct r as [[t2 d2] p2]. cbn [fst snd] in H.
-    match type of E0 with pop_token _ _ ?q = _ => assert (Hq : pl q = pl p) by (flds; reflexivity) end.
-    destruct (pop_token_o D _ _ _ _ _ _ E0 ltac:(rewrite Hq; exact Hr)) as (Hr2 & Ht2 & _).
-    rewrite Hq in Ht2. pose proof (tok_at_le _ _ _ _ _ Ht2).
-    eapply IH; [exact H|exact Hr2|lia].
+  induction fuel as [|fuel IH]; intros F p t d g p' H Hr Hc; rewrite decl_error_loop_eq in H.
+  - pif H; [|discriminate]. cbv zeta in H. ret_inv H. apply unit_err; [flds; exact Hr|].
+    flds; first [exact Hc|eapply chain_prefix; exact Hc].
+  - pif H; [cbv zeta in H; ret_inv H; apply unit_err; [flds; exact Hr|flds; first [exact Hc|eapply chain_prefix; exact Hc]]|].
+    cbv zeta in H. pinv_bind H. destruct r as [[t2 d2] p2]. cbn [fst snd] in H.
+    match type of E0 with pop_token _ _ ?q = _ =>
+      assert (Hq : pl q = pl p /\ pbuf q = (pbuf p ++ (if prevws (adjust_level p t) then [(TWhitespace, [32])] else [])) ++ [(t, d)])
+        by (flds; rewrite ?app_nil_r; split; reflexivity) end.
+    destruct Hq as (Hq1 & Hq2).
+    destruct (pop_token_o D _ _ _ _ _ _ E0 ltac:(rewrite Hq1; exact Hr)) as (Hr2 & Ht2 & _ & _ & Hb2).
+    rewrite Hq1 in Ht2.
+    eapply IH; [exact H|exact Hr2|]. rewrite Hb2, Hq2. eapply chain_snoc; [|exact Ht2]. apply chain_insert_ws. exact Hc.
 Qed.
 
 Lemma parse_declaration_error_o D s F p t d g p' : parse_declaration_error F p t d = POk (g, p') ->
-  lex_reach D (pl p) -> s <= lpos (pl p) -> unit_ok D s g p'.
+  lex_reach D (pl p) -> chain D s (pbuf p ++ [(t, d)]) (lpos (pl p)) -> unit_ok D s g p'.
 Proof. unfold parse_declaration_error. intros H Hr Hs. eapply decl_error_loop_o; [exact H|exact Hr|exact Hs]. Qed.
 
 Lemma drop_ws_chain D lo hi : forall b, chain D lo b hi -> chain D lo (drop_ws b) hi.
@@ -353,7 +368,8 @@ Proof.
   pose proof (tok_at_le _ _ _ _ _ Ht) as Hle. pose proof (chain_le _ _ _ _ Hc) as Hsle.
   assert (Hc1 : chain D s (pbuf p1) (lpos (pl p1))) by (rewrite Hbb; eapply chain_hi; eassumption).
   assert (Herr : forall g p', parse_declaration_error F (set_err p1 true) t d = POk (g, p') -> unit_ok D s g p').
-  { intros g0 p0 H0. eapply parse_declaration_error_o; [exact H0|exact Hr1|cbn [set_err pl]; lia]. }
+  { intros g0 p0 H0. eapply parse_declaration_error_o; [exact H0|exact Hr1|].
+    cbn [set_err pbuf pl]. rewrite Hbb. eapply chain_snoc; [exact Hc|exact Ht]. }
   pif H.
   - rewrite Hbb, Hb in H. rewrite Hbb, Hb in Hc1.
     destruct (drop_ws rest) as [|c vals] eqn:Edw; [eapply Herr; exact H|].
@@ -396,7 +412,9 @@ Proof.
   - ret_inv H. split; [flds; exact Hr1|]. unfold reported. cbn [fst snd]. rewrite Hp1. flds. rewrite Hb. cbn [app].
     match goal with |- chain _ _ (?x :: ?y :: nil) _ => change (x :: y :: nil) with ([x] ++ [y]) end.
     eapply chain_app; [exact Hc|]. try rewrite Hval. eapply CH_src; [|apply S_custom|constructor]; lia.
-  - pif H; [ret_inv H; apply unit_err; [flds; exact Hr1|flds; lia]|].
+  - pif H.
+    { ret_inv H. apply unit_err; [flds; exact Hr1|]. rewrite Hp1. flds. rewrite Hb. cbn [app]. apply chain_one.
+      eapply tok_at_lo; [exact Ht|lia]. }
     assert (Hpl : pl (adjust_level p1 t) = pl p1) by (flds; reflexivity).
     eapply (IH _ _ _ _ H); [rewrite Hpl; exact Hr1| | |].
     + rewrite Hp1. flds; exact Hb.
@@ -410,19 +428,20 @@ Proof.
   unfold parse_custom_property. intros H Hr Hc. pinv_bind H. destruct r as [[t d] p1]. cbn [fst snd] in H.
   destruct (pop_token_o D _ _ _ _ _ _ E Hr) as (Hr1 & Ht & Htt & Hdd & Hbb). cbn [set_buf pl ptt pdata pbuf] in *.
   pose proof (tok_at_le _ _ _ _ _ Ht) as Hle. pose proof (chain_le _ _ _ _ Hc) as Hsle.
-  pif H; [ret_inv H; apply unit_err; [exact Hr1|cbn [set_err pl]; lia]|].
+  pif H; [ret_inv H; apply unit_err; [exact Hr1|cbn [set_err pl pbuf]; rewrite Hbb; constructor; lia]|].
   eapply (custom_loop_o D s _ _ _ _ _ H Hr1 Hbb (lpos (pl p))); [rewrite Htt, Hdd; exact Hc|].
   exists (lpos (pl p1)). pose proof (reach_pos D _ Hr1). split; [lia|]. split; [lia|]. symmetry. apply slice_empty.
 Qed.
 
 (* the data token after re-reading it *)
 Definition dat (D : list Z) (s : Z) (p : parser) : Prop :=
-  lex_reach D (pl p) /\ chain D s [(ptt p, pdata p)] (lpos (pl p)).
+  lex_reach D (pl p) /\ chain D s [(ptt p, pdata p)] (lpos (pl p)) /\ pbuf p = [].
 
 Lemma dat_pop D s F allow p t d p' : pop_token F allow p = POk (t, d, p') -> dat D s p -> dat D s (set_tok p' t d).
 Proof.
-  intros H (Hr & Hc). destruct (pop_token_o D _ _ _ _ _ _ H Hr) as (Hr1 & Ht & _).
-  split; [exact Hr1|]. cbn [set_tok ptt pdata pl]. apply chain_one. eapply tok_at_lo; [exact Ht|]. eapply chain_le; exact Hc.
+  intros H (Hr & Hc & Hb). destruct (pop_token_o D _ _ _ _ _ _ H Hr) as (Hr1 & Ht & _ & _ & Hbb).
+  split; [exact Hr1|]. cbn [set_tok ptt pdata pl pbuf]. split; [|rewrite Hbb; exact Hb].
+  apply chain_one. eapply tok_at_lo; [exact Ht|]. eapply chain_le; exact Hc.
 Qed.
 
 Lemma skip_semicolons_o D s : forall fuel F p p', skip_semicolons fuel F p = POk p' -> dat D s p -> dat D s p'.
@@ -448,37 +467,42 @@ Proof.
   { pif E1; [|apply POk_inj in E1; subst; exact Hc2].
     pinv_bind E1. pif E1; [|apply POk_inj in E1; subst; exact Hc2].
     pinv_bind E1. destruct r0 as [[t d] p1]. cbn [fst snd] in E1. cbv zeta in E1.
-    destruct Hc2 as (Hr2 & Hch2).
-    destruct (pop_token_o D _ _ _ _ _ _ E5 Hr2) as (Hr1 & Ht & Htt & Hdd & _).
+    destruct Hc2 as (Hr2 & Hch2 & Hb2).
+    destruct (pop_token_o D _ _ _ _ _ _ E5 Hr2) as (Hr1 & Ht & Htt & Hdd & Hbb).
     pif E1; apply POk_inj in E1; subst q3.
-    - split; [exact Hr1|]. cbn [set_tok ptt pdata pl]. rewrite Hdd.
+    - split; [exact Hr1|]. cbn [set_tok ptt pdata pl pbuf]. split; [|rewrite Hbb; exact Hb2]. rewrite Hdd.
       apply is_t_eq in E2.
       destruct (chain_one_src D s _ _ _ Hch2) as (a & b & Ha & Hs & Hb); try (rewrite E2; discriminate).
       destruct Ht as [(-> & _)|(a' & Ha' & Hs')]; [discriminate E6|].
       eapply CH_src; [exact Ha| |].
       { eapply S_glued; [rewrite <- E2; exact Hs|exact Hs'|lia]. }
       apply CH_nil. lia.
-    - split; [exact Hr1|]. rewrite Htt, Hdd. eapply chain_hi; [exact Hch2|]. eapply tok_at_le; exact Ht. }
-  cbv zeta in H. destruct Hc3 as (Hr3 & Hch3). pose proof (chain_le _ _ _ _ Hch3) as Hs3.
-  pif H; [ret_inv H; apply unit_err; assumption|].
+    - split; [exact Hr1|]. split; [|rewrite Hbb; exact Hb2]. rewrite Htt, Hdd. eapply chain_hi; [exact Hch2|]. eapply tok_at_le; exact Ht. }
+  cbv zeta in H. destruct Hc3 as (Hr3 & Hch3 & Hb3). pose proof (chain_le _ _ _ _ Hch3) as Hs3.
+  pif H; [ret_inv H; apply unit_err; [exact Hr3|rewrite Hb3; constructor; exact Hs3]|].
   pif H; [eapply parse_at_rule_o; eassumption|].
   pif H; [eapply parse_declaration_o; eassumption|].
   pif H; [eapply parse_custom_property_o; eassumption|].
-  pif H; [ret_inv H; apply unit_err; flds; assumption|].
-  eapply parse_declaration_error_o; [exact H|flds; exact Hr3|flds; exact Hs3].
+  pif H; [ret_inv H; apply unit_err; [flds; exact Hr3|flds; exact Hch3]|].
+  eapply parse_declaration_error_o; [exact H|flds; exact Hr3|flds; exact Hch3].
 Qed.
 
 Lemma parse_qualified_rule_o D s F p g p' : parse_qualified_rule F p = POk (g, p') -> dat D s p -> unit_ok D s g p'.
 Proof.
-  unfold parse_qualified_rule. intros H (Hr & Hc). eapply qualified_loop_o; [exact H|exact Hr|]. cbn [set_buf pbuf ptt pdata pl].
+  unfold parse_qualified_rule. intros H (Hr & Hc & _). eapply qualified_loop_o; [exact H|exact Hr|]. cbn [set_buf pbuf ptt pdata pl].
   split; [reflexivity|exact Hc].
 Qed.
 
-Lemma unit_data D s g p p' : dat D s p -> pl p' = pl p -> ptt p' = ptt p -> pdata p' = pdata p ->
-  reported (g, p') = [(ptt p', pdata p')] -> unit_ok D s g p'.
-Proof. intros (Hr & Hc) H1 H2 H3 H4. split; [rewrite H1; exact Hr|]. rewrite H4, H1, H2, H3. exact Hc. Qed.
+(* a unit that reports its token only: Values() are empty *)
+Lemma unit_data D s g p p' : dat D s p -> pl p' = pl p -> ptt p' = ptt p -> pdata p' = pdata p -> pbuf p' = pbuf p ->
+  g <> GError -> unit_ok D s g p'.
+Proof.
+  intros (Hr & Hc & Hb) H1 H2 H3 H4 Hg. split; [rewrite H1; exact Hr|].
+  assert (E : reported (g, p') = [(ptt p', pdata p')]) by (unfold reported; destruct g; cbn [fst snd]; try congruence; rewrite H4, Hb; reflexivity).
+  rewrite E, H1, H2, H3. exact Hc.
+Qed.
 
-Lemma pop_st_f p p' : pop_st p = POk p' -> pl p' = pl p /\ ptt p' = ptt p /\ pdata p' = pdata p.
+Lemma pop_st_f p p' : pop_st p = POk p' -> pl p' = pl p /\ ptt p' = ptt p /\ pdata p' = pdata p /\ pbuf p' = pbuf p.
 Proof. unfold pop_st. intros H. destruct (pst p); [discriminate|]. apply POk_inj in H. subst. repeat split. Qed.
 
 (* one call of Next: the tokens it reports lie, in order, between the lexer positions before and after the call *)
@@ -488,31 +512,32 @@ Proof.
   set (s := lpos (pl p)) in *.
   assert (Hc1 : dat D s p1).
   { pif E.
-    - apply POk_inj in E. subst p1. split; [exact Hr|]. cbn [set_prevend set_tok set_err ptt pdata pl].
-      apply synth_one; [right; left; split; reflexivity|unfold s; lia].
+    - apply POk_inj in E. subst p1. split; [exact Hr|]. cbn [set_prevend set_tok set_err set_buf ptt pdata pl pbuf].
+      split; [|reflexivity]. apply synth_one; [right; left; split; reflexivity|unfold s; lia].
     - pinv_bind E. destruct r as [[t d] q]. cbn [fst snd] in E. apply POk_inj in E. subst p1.
-      destruct (pop_token_o D _ _ _ _ _ _ E1 Hr) as (Hrq & Ht & _). split; [exact Hrq|]. cbn [set_tok ptt pdata pl].
-      apply chain_one. exact Ht. }
-  pose proof Hc1 as (Hr1 & Hch1).
+      destruct (pop_token_o D _ _ _ _ _ _ E1 Hr) as (Hrq & Ht & _ & _ & Hbq). split; [exact Hrq|]. cbn [set_tok ptt pdata pl pbuf].
+      split; [|rewrite Hbq; reflexivity]. apply chain_one. exact Ht. }
+  pose proof Hc1 as (Hr1 & Hch1 & Hb1).
   destruct (pst p1) as [|st rest]; [discriminate|]. destruct st.
-  - unfold parse_stylesheet in H. pif H; [ret_inv H; split; assumption|]. pif H; [eapply parse_at_rule_o; eassumption|].
-    pif H; [ret_inv H; split; assumption|]. pif H; [eapply parse_custom_property_o; eassumption|].
-    pif H; [ret_inv H; apply unit_err; [exact Hr1|eapply chain_le; exact Hch1]|]. eapply parse_qualified_rule_o; eassumption.
+  - unfold parse_stylesheet in H.
+    pif H; [ret_inv H; eapply unit_data; [exact Hc1| | | | |discriminate]; reflexivity|]. pif H; [eapply parse_at_rule_o; eassumption|].
+    pif H; [ret_inv H; eapply unit_data; [exact Hc1| | | | |discriminate]; reflexivity|]. pif H; [eapply parse_custom_property_o; eassumption|].
+    pif H; [ret_inv H; apply unit_err; [exact Hr1|rewrite Hb1; constructor; eapply chain_le; exact Hch1]|]. eapply parse_qualified_rule_o; eassumption.
   - eapply parse_declaration_list_o; eassumption.
   - unfold parse_at_rule_rule_list in H. pif H.
-    + pinv_bind H. ret_inv H. destruct (pop_st_f _ _ E1) as (F1 & F2 & F3). eapply unit_data; [exact Hc1| | | |]; try assumption. reflexivity.
+    + pinv_bind H. ret_inv H. destruct (pop_st_f _ _ E1) as (F1 & F2 & F3 & F4). eapply unit_data; [exact Hc1| | | | |discriminate]; assumption.
     + pif H; [eapply parse_at_rule_o; eassumption|eapply parse_qualified_rule_o; eassumption].
   - unfold parse_at_rule_declaration_list in H. pinv_bind H. pose proof (skip_semicolons_o D s _ _ _ _ E0 Hc1) as Hc2.
     cbv zeta in H. pif H.
-    + pinv_bind H. ret_inv H. destruct (pop_st_f _ _ E2) as (F1 & F2 & F3). eapply unit_data; [exact Hc2| | | |]; try assumption. reflexivity.
+    + pinv_bind H. ret_inv H. destruct (pop_st_f _ _ E2) as (F1 & F2 & F3 & F4). eapply unit_data; [exact Hc2| | | | |discriminate]; assumption.
     + eapply parse_declaration_list_o; eassumption.
   - unfold parse_at_rule_unknown in H. cbv zeta in H. pif H.
-    + pinv_bind H. ret_inv H. destruct (pop_st_f _ _ E1) as (F1 & F2 & F3).
-      eapply unit_data; [exact Hc1| | | |reflexivity]; cbn [set_keepws pl ptt pdata] in *; assumption.
-    + ret_inv H. eapply unit_data; [exact Hc1| | | |reflexivity]; flds; reflexivity.
+    + pinv_bind H. ret_inv H. destruct (pop_st_f _ _ E1) as (F1 & F2 & F3 & F4).
+      eapply unit_data; [exact Hc1| | | | |discriminate]; cbn [set_keepws pl ptt pdata pbuf] in *; assumption.
+    + ret_inv H. eapply unit_data; [exact Hc1| | | | |discriminate]; flds; reflexivity.
   - unfold parse_qualified_rule_declaration_list in H. pinv_bind H. pose proof (skip_semicolons_o D s _ _ _ _ E0 Hc1) as Hc2.
     cbv zeta in H. pif H.
-    + pinv_bind H. ret_inv H. destruct (pop_st_f _ _ E2) as (F1 & F2 & F3). eapply unit_data; [exact Hc2| | | |]; try assumption. reflexivity.
+    + pinv_bind H. ret_inv H. destruct (pop_st_f _ _ E2) as (F1 & F2 & F3 & F4). eapply unit_data; [exact Hc2| | | | |discriminate]; assumption.
     + eapply parse_declaration_list_o; eassumption.
 Qed.
 
